@@ -480,6 +480,10 @@ func (n *BinaryNode) MarshalJSON() ([]byte, error) {
 		SetOperator("operator", n.Operator).
 		Set("left", n.Left).
 		Set("right", n.Right)
+	if n.Parens {
+		// Without the parentheses the formatted expression has a different precedence.
+		props = props.Set("parens", true)
+	}
 
 	return json.Marshal(&props)
 }
@@ -488,6 +492,12 @@ func (n *BinaryNode) unmarshal(props JSONNode) error {
 	err := props.CheckTypeOf("binary")
 	if err != nil {
 		return err
+	}
+
+	if props.Has("parens") {
+		if n.Parens, err = props.Bool("parens"); err != nil {
+			return err
+		}
 	}
 
 	if n.Operator, err = props.Operator("operator"); err != nil {
